@@ -672,12 +672,16 @@ func (s *kvSubj[K]) checkC02(o *Oracle, keys []K, vals []string, ms []kvEnt[K]) 
 		return
 	}
 	chk := func(what string, k K, v string, ok bool, want *kvEnt[K]) {
+		id := strings.ToLower(what) // the oracle id names the operation, not the probe key
+		if i := strings.IndexByte(id, '('); i >= 0 {
+			id = id[:i]
+		}
 		if ok != (want != nil) {
-			o.Fail("C02", what, "after %s: %s found=%v (key %s), model says found=%v", o.cur, what, ok, s.d.Str(k), want != nil)
+			o.Fail("C02", id, "after %s: %s found=%v (key %s), model says found=%v", o.cur, what, ok, s.d.Str(k), want != nil)
 			return
 		}
 		if ok && (s.kclass(k) != s.kclass(want.k) || v != want.v) {
-			o.Fail("C02", what, "after %s: %s=(%s,%q), want (%s,%q)", o.cur, what, s.d.Str(k), v, s.d.Str(want.k), want.v)
+			o.Fail("C02", id, "after %s: %s=(%s,%q), want (%s,%q)", o.cur, what, s.d.Str(k), v, s.d.Str(want.k), want.v)
 		}
 	}
 	var first, last *kvEnt[K]
